@@ -11,6 +11,7 @@ rsync -a --exclude .git --exclude example --exclude 'rewriter/test' "$repo/" "$d
 mkdir -p "$d/zzs/src" "$d/zzs/tool"
 i=0
 for f in "$@"; do i=$((i+1)); cp "$f" "$d/zzs/src/s$i.go"; [ -d "${f%.go}.files" ] && cp "${f%.go}.files"/* "$d/zzs/src/"; done
+for g in "$d"/zzs/src/*.go.txt; do [ -e "$g" ] && mv "$g" "${g%.txt}"; done   # further Go files of a sample are stored as *.go.txt
 cat > "$d/zzs/tool/main.go" <<'GO'
 package main
 
@@ -39,7 +40,7 @@ if [ $st -ne 0 ]; then
 fi
 # companion files of a sample (<sample>.files/*: e.g. a file named by //go:embed) belong next to the generated code too:
 # the compiler writes Go files only, as it does when it generates in place
-for f in "$@"; do [ -d "${f%.go}.files" ] && cp "${f%.go}.files"/* "$d/zzs/out/"; done
+for f in "$@"; do [ -d "${f%.go}.files" ] && for c in "${f%.go}.files"/*; do case "$c" in *.go.txt) ;; *) cp "$c" "$d/zzs/out/";; esac; done; done
 if [ -n "$COTOOL_SHOW" ]; then cat "$d"/zzs/out/*.go; fi
 if ! go build -o "$d/zzs/prog" ./zzs/out 2>"$d/build.err"; then echo "BUILD-FAIL: $(head -5 "$d/build.err" | tr '\n' ' ' | sed "s|$d/||g" | cut -c1-500)"; exit 4; fi
 timeout 20 "$d/zzs/prog" 2>"$d/run.err"; st=$?
